@@ -942,7 +942,10 @@ class C17(CaseSpec):
         res = {}
         for fl in self.flavours:
             for scen in ("queries", "disconnect"):
-                rc, out = vlib.sh([vlib.HARNESS_BIN, "stress", fl, scen, "1200"], timeout=60)
+                try:
+                    rc, out = vlib.sh([vlib.HARNESS_BIN, "stress", fl, scen, "1500"], timeout=30)
+                except Exception as e:       # the stress binary itself hung
+                    rc, out = 9, "stall: stress run did not return (%s)" % type(e).__name__
                 res["%s/%s" % (fl, scen)] = out.strip().splitlines()[-1] if out.strip() else "rc=%d" % rc
                 if rc != 0:
                     rp = write_replay(prop, {"kind": "failing-input", "flavour": fl, "oracle": "free-running threads stall: " + res["%s/%s" % (fl, scen)],
